@@ -42,24 +42,36 @@
 (* deadline, at a "T" step or when nobody else can run.                     *)
 (*                                                                         *)
 (* What the code does when the pool is stopped BEFORE the scheduler is      *)
-(* destroyed (modelled as it is, flagged by the invariants named):          *)
-(*  - the worker's cancelled `co_await *pool` throws                        *)
+(* destroyed (modelled as it is):                                           *)
+(*  - the worker's cancelled `co_await *pool` (closure rejected by          *)
+(*    enqueue() after _exit, or discarded by stop()) throws                 *)
 (*    await_canceled_exception out of worker_coro: the coroutine ends and   *)
 (*    the scheduler's own future _fut holds that exception (wexc).  The     *)
-(*    scheduler is dead from then on: sleeps stay pending until ~scheduler  *)
-(*    cancels them.  ~scheduler calls _fut.wait(), which RETHROWS inside    *)
-(*    the noexcept destructor -> std::terminate (DtorRethrows = TRUE: code  *)
-(*    at c8b8cb3; FALSE: a destructor that only synchronises) -- NoCrash;   *)
+(*    scheduler is dead from then on: sleeps stay pending (also those whose *)
+(*    time point passes, also new ones) until ~scheduler cancels them;      *)
+(*    cancel() still works.  ~scheduler only synchronises with _fut         *)
+(*    (_fut.sync(), /repo d43aae7; DtorRethrows = FALSE).  Before that fix  *)
+(*    it called _fut.wait(), which RETHROWS the exception inside the        *)
+(*    noexcept destructor -> std::terminate (DtorRethrows = TRUE, kept as a *)
+(*    variant that NoCrash must reject);                                    *)
 (*  - a pool thread blocked in the scheduler's _cond.wait_until is not      *)
-(*    woken by pool.stop(): its join lasts until the earliest deadline, for *)
-(*    ever when nothing is scheduled -- NoHang;                             *)
+(*    woken by pool.stop() (a pool job that blocks: stop() joins it): the   *)
+(*    join lasts until the earliest deadline (then the worker finds the     *)
+(*    pool stopped and ends as above), a schedule() with an earlier         *)
+(*    deadline or the stop request - for ever when nothing is scheduled.    *)
+(*    PRECONDITION of the driver: the pool is not stopped while the worker  *)
+(*    may be waiting with no finite deadline (NoHang rejects such scripts); *)
+(*    the finite case is modelled (Tick while the client is in the join);   *)
 (*  - closures made by thread_pool::resume() hold a bare coroutine handle   *)
-(*    (known finding of C11): a discarded start closure of the worker       *)
-(*    coroutine leaves _fut pending for ever (wdrop; ~scheduler hangs --    *)
-(*    NoHang), a discarded continuation of an awaiting sleeper leaves that  *)
-(*    coroutine suspended for ever -- SleeperNotForgotten.                  *)
-(* With the scheduler destroyed before the pool is stopped none of these    *)
-(* can happen.                                                              *)
+(*    (known finding pool_resume_bare_handle_dropped of C11): a discarded   *)
+(*    start closure of the worker coroutine leaves _fut pending for ever    *)
+(*    (wdrop; ~scheduler hangs -- NoHang; excluded by the driver: the pool  *)
+(*    is stopped first only after the worker has certainly started), a      *)
+(*    discarded continuation of an awaiting sleeper - also in the normal    *)
+(*    order, when it is still queued at pool.stop() - leaves that coroutine *)
+(*    suspended for ever although its sleep completed: modelled             *)
+(*    (co "dropped"); SleeperNotForgotten states the opposite and is left   *)
+(*    out of the configuration used for scripts with awaiting coroutines.   *)
 (*                                                                         *)
 (* Rule for ordinary pool jobs (what the code does, not more): the worker   *)
 (* coroutine occupies one pool thread while it sleeps in wait_until; it     *)
